@@ -595,6 +595,18 @@ func (ft *funcTrans) binop(x *ssa.BinOp) {
 		a = ft.coerceTo(a, w.sortOf(x.X.Type()))
 		b = ft.coerceTo(b, w.sortOf(x.Y.Type()))
 	}
+	if (x.Op == token.EQL || x.Op == token.NEQ) && isNamed(x.X.Type(), "time", "Time") && x.X != x.Y {
+		// == on time.Time compares the representation (wall clock, monotonic reading, *Location),
+		// not the instant: equal structs denote the same instant, but not conversely.
+		eq := w.declConstRaw(w.fresh("timeStructEq"), "Bool")
+		w.addFact(fmt.Sprintf("(=> %s (= %s %s))", eq, a.S, b.S))
+		if x.Op == token.EQL {
+			ft.define(x, Term{eq, sortBool})
+		} else {
+			ft.define(x, Term{"(not " + eq + ")", sortBool})
+		}
+		return
+	}
 	switch x.Op {
 	case token.EQL:
 		ft.define(x, Term{fmt.Sprintf("(= %s %s)", a.S, b.S), sortBool})
